@@ -25,7 +25,9 @@ def prop_types(full):
         ("ref-struct", R("Position")), ("ref-closed-str-enum", R("MarkupKind")), ("ref-open-str-enum", R("LanguageKind")),
         ("array-struct", ARR(R("Range"))), ("map-str-base", {"kind": "map", "key": B("string"), "value": B("integer")}),
         ("tuple", {"kind": "tuple", "items": [B("uinteger"), B("string")]}), ("struct-or-null", OR(R("Position"), B("null"))),
-        ("literal", {"kind": "literal", "value": {"properties": [{"name": "first", "type": B("string")}, {"name": "second", "type": B("uinteger"), "optional": True}]}}),
+        ("literal", {"kind": "literal", "value": {"properties": [
+            {"name": "first", "type": B("string")}, {"name": "secondValue", "type": OR(B("uinteger"), B("null"))},
+            {"name": "third", "type": B("boolean"), "optional": True}]}}),
     ]
     more = [
         ("integer", B("integer")), ("decimal", B("decimal")), ("DocumentUri", B("DocumentUri")), ("URI", B("URI")),
@@ -120,6 +122,13 @@ def e3_inheritance(doc, full):
     d["structures"].append({"name": "VerifMixed", "properties": [{"name": "verifOwn", "type": B("string")}], "mixins": [R(MIXIN)],
                             "extends": [R("Position")]})
     out.append(("new structure extending Position with mixin %s" % MIXIN, "E3:mixin", d))
+    d = copy.deepcopy(doc)
+    d["structures"].append({"name": "VerifKindMixin", "properties": [{"name": "kind", "type": B("string")}, {"name": "label", "type": B("string"), "optional": True}]})
+    d["structures"].append({"name": "VerifArchiveParams", "properties": [{"name": "kind", "type": {"kind": "stringLiteral", "value": "archive"}},
+                                                                         {"name": "uri", "type": B("DocumentUri")}],
+                            "mixins": [R("VerifKindMixin")]})
+    d["notifications"].append({"method": "verif/archive", "typeName": "VerifArchiveNotification", "params": R("VerifArchiveParams"), "messageDirection": "clientToServer"})
+    out.append(("new structure re-declaring (as a string literal) a property of its mixin, used by a new notification", "E3:mixin-override+E5", d))
     d = copy.deepcopy(doc)
     _struct(d, LEAF)["extends"] = [R("WorkDoneProgressOptions")]
     out.append(("existing leaf %s gains extends WorkDoneProgressOptions" % LEAF, "E3:leaf-gains-extends", d))
